@@ -1,0 +1,12 @@
+//go:build !verif
+
+package pongo2
+
+// Stubs for the verification hooks (see verif_hooks.go). Without the build
+// tag "verif" the hook calls compile to nothing.
+
+func verifEv(ev string, a, b, c, d int, s, t string, p any) {}
+
+func verifGate(ctx *ExecutionContext, kind string, idx int) {}
+
+func verifB(b bool) int { return 0 }
